@@ -71,6 +71,7 @@ contract(
 # exactly the listed arguments: for a name, its text and its quoted flag are all normalize_name reads of it).
 uninterpreted("NN", 5)
 uninterpreted("TY", 2)
+uninterpreted("dkey", 1)       # schema._dialect_cache_key: type + version + strategy + settings of a Dialect instance (else the value itself)
 uninterpreted("name_of", 1)    # Identifier.name / .quoted (properties over args): functions of the node, which is not mutated here
 uninterpreted("quoted_of", 1)
 fields(_normalized_name_cache="dict", _type_mapping_cache="dict", _dialect="Dialect", quoted="bool")
@@ -85,11 +86,13 @@ contract(
     requires=["name_coh(self)", "is_bool(self.normalize)"],
     ensures=["name_coh(self)",
              # whatever the cache held, the answer is the uncached one for this very name (text + quoted flag), dialect and flags
-             "result is NN(name_str, quoted, dialect, is_table, normalize)"],
+             "result is NN(name_str, quoted, dkey(dialect), is_table, normalize)"],
     modifies=["self._normalized_name_cache{}"],
     ghost={"post_uses_final_locals": True},
     opaque={
-        "normalize_name": dict(returns="Identifier", ensures=["name_of(result) is NN(name_str, quoted, dialect, is_table, normalize)"]),
+        # assumed: the uncached computation depends on the dialect only through what the cache key records of it
+        "normalize_name": dict(returns="Identifier", ensures=["name_of(result) is NN(name_str, quoted, dkey(dialect), is_table, normalize)"]),
+        "_dialect_cache_key": dict(returns="any", pure=True, uf="dkey"),
         ".name": dict(returns="str", pure=True, uf="name_of"), ".quoted": dict(returns="bool", pure=True, uf="quoted_of"),
     },
     inline=["dialect"],
@@ -99,14 +102,15 @@ contract(
     S, "MappingSchema._to_data_type", props=["C18", "C15"],
     types={"schema_type": "str", "dialect": "any"},
     requires=["type_coh(self)"],
-    ensures=["type_coh(self)", "result is TY(schema_type, dialect)"],
+    ensures=["type_coh(self)", "result is TY(schema_type, dkey(dialect))"],
     raises={"SchemaError": ["type_coh(self)"]},
     modifies=["self._type_mapping_cache{}"],
     ghost={"post_uses_final_locals": True},
     opaque={
         "Dialect.get_or_raise": dict(returns="Dialect", pure=True),
         ".SUPPORTS_USER_DEFINED_TYPES": dict(returns="bool"),
-        "exp.DataType.from_str": dict(returns="Expression", raises=["AttributeError"], ensures=["result is TY(schema_type, dialect)"]),
+        "exp.DataType.from_str": dict(returns="Expression", raises=["AttributeError"], ensures=["result is TY(schema_type, dkey(dialect))"]),
+        "_dialect_cache_key": dict(returns="any", pure=True, uf="dkey"),
         # normalises the identifiers of the freshly built type in place; returns the same node
         "expression.transform": dict(returns="any", raises=["AttributeError"]),
     },
